@@ -7,6 +7,7 @@ from typing import (
     Mapping,
     Optional,
     Sequence,
+    Set,
     Tuple,
     Type,
     TypeVar,
@@ -52,9 +53,17 @@ T = TypeVar("T")
 
 
 class RefsExtractor(ConversionsVisitor, ObjectVisitor, WithConversionsResolver):
-    def __init__(self, default_conversion: DefaultConversion, refs: Refs):
+    def __init__(
+        self,
+        default_conversion: DefaultConversion,
+        refs: Refs,
+        visited: Optional[Set[str]] = None,
+    ):
         super().__init__(default_conversion)
         self.refs = refs
+        # A reference can be counted without its type being visited (discriminated
+        # parent counted by its children), so visited references are tracked apart
+        self._visited: Set[str] = set() if visited is None else visited
         self._rec_guard: Dict[
             Tuple[AnyType, Optional[AnyConversion]], int
         ] = defaultdict(lambda: 0)
@@ -142,8 +151,11 @@ class RefsExtractor(ConversionsVisitor, ObjectVisitor, WithConversionsResolver):
         if not dynamic:
             for ref_tp in self.resolve_conversion(tp):
                 ref_types.append(ref_tp)
-                if self._incr_ref(get_type_name(ref_tp).json_schema, ref_tp):
+                ref = get_type_name(ref_tp).json_schema
+                if self._incr_ref(ref, ref_tp) and ref in self._visited:
                     return
+                if ref is not None:
+                    self._visited.add(ref)
         if not is_hashable(tp):
             return super().visit_conversion(tp, conversion, dynamic, next_conversion)
         # 2 because the first type encountered of the recursive cycle can have no ref
